@@ -58,6 +58,14 @@ def acquisition_native(vc):
         fo = lambda p: float(acq.opt_func(p))
         gf[c] = (-fo(q + 2 * e) + 8 * fo(q + e) - 8 * fo(q - e) + fo(q - 2 * e)) / 12e-5
     vc.ensures("gradient_matches_finite_differences", bool(np.allclose(g0, gf, rtol=1e-4, atol=1e-6 * max(1.0, float(np.abs(gf).max())))))
+    # values depend on the VALUE of the query point only: one buffer evaluated, moved in place, evaluated again (what L-BFGS does)
+    qb = q + 0.3
+    acq(qb), acq.opt_func(qb), acq.opt_func_gradient(qb), opt.gp(qb)
+    qb[:] = q
+    f1, g1 = acq.opt_func_gradient(qb)
+    m1, s1 = opt.gp(qb)
+    vc.ensures("query_buffer_moved_in_place", float(acq(qb)) == val and float(np.asarray(f1).reshape(-1)[0]) == f0
+               and bool(np.array_equal(np.reshape(g1, (d,)), g0)) and float(m1[0]) == mu and float(s1[0]) == sig)
 
 
 @bounded("C18", "expected_improvement_branches_native", native_runs=1)
